@@ -187,6 +187,65 @@ Example C17_example_yields :
   snd (send (init (inline b))) = STask /\ is_stopped (fst (send (init (inline b)))) = false.
 Proof. exact example_yields_ok. Qed.
 
+(* ---- the payload of a Value is opaque (round 8).  `Value(obj)` may hold anything, in particular a FUTURE that the
+   consumer is to receive as an object (an unstarted task, a computed one, a ConstFuture, a batch item ...); in the
+   model the v of `GValue v` is a label of that object.  Vocabulary (proofs/GenProofs.v): `rl_state f` / `rl_sh f`
+   relabel the payloads of the Values a state still has to yield and of the results it already holds, by any
+   f : val -> val; `rl_res` / `rl_lres` / `rl_out` relabel results; `tmap f` relabels a tree body; nothing else of a
+   state (awaited outcomes, values sent into the body, counters, flags) is touched by them. *)
+
+(* relabelling the payloads commutes with every consumer: for ALL bodies (failing awaits, raising bodies, END-valued
+   futures), all states, all op lists over next / task.value() / list_of_generator / take_first n *)
+Theorem C17_payload_opaque : forall f ops sh,
+  run (rl_sh f sh) ops = (rl_sh f (fst (run sh ops)), map (rl_out f) (snd (run sh ops))).
+Proof. exact run_relabel. Qed.
+Print Assumptions C17_payload_opaque.
+
+Theorem C17_payload_opaque_list_take : forall f s n,
+  list_of_generator (rl_state f s) = (rl_state f (fst (list_of_generator s)), rl_lres f (snd (list_of_generator s))) /\
+  take_first (rl_state f s) n = (rl_state f (fst (take_first s n)), rl_lres f (snd (take_first s n))).
+Proof. exact (fun f s n => conj (list_of_generator_rl f s) (take_first_rl f s n)). Qed.
+Print Assumptions C17_payload_opaque_list_take.
+
+(* ... and nothing but the results depends on the payloads: the values the body receives at its yields, the number of
+   times it is resumed, exhaustion, whether a task is pending and what that task waits for first are the same -
+   a payload is never something the generator waits for *)
+Theorem C17_payload_never_awaited : forall f ops sh,
+  let s1 := fst (fst (run (rl_sh f sh) ops)) in
+  let s0 := fst (fst (run sh ops)) in
+  sent s1 = sent s0 /\ pulls s1 = pulls s0 /\ is_stopped s1 = is_stopped s0 /\
+  length (rest s1) = length (rest s0) /\ pending s1 = pending s0 /\
+  (forall first, last_task s0 = LPending first -> last_task s1 = LPending first).
+Proof. exact relabel_unobserved. Qed.
+Print Assumptions C17_payload_never_awaited.
+
+(* the entry point of the correspondence, bodies without nested generators: per op (result, pulls, is_stopped) with
+   the results relabelled, and the same list of values received by the body *)
+Theorem C17_payload_opaque_run_case : forall f b ops,
+  forallb tflat b = true ->
+  run_case (map (tmap f) b) ops = (map (rl_out f) (fst (run_case b ops)), snd (run_case b ops)).
+Proof. exact run_case_relabel. Qed.
+Print Assumptions C17_payload_opaque_run_case.
+
+(* nested generators of any depth whose awaits do not fail: the payloads pass through `x = yield task; yield Value(x)`
+   of every level as they are *)
+Theorem C17_payload_opaque_nested : forall f b n,
+  forallb tclean1 b = true ->
+  snd (list_of_generator (init (inline (map (tmap f) b)))) = rl_lres f (snd (list_of_generator (init (inline b)))) /\
+  snd (take_first (init (inline (map (tmap f) b))) n) = rl_lres f (snd (take_first (init (inline b)) n)).
+Proof. exact nested_relabel. Qed.
+Print Assumptions C17_payload_opaque_nested.
+
+Example C17_example_payloads :
+  let b := example_payloads in
+  let f := fun v => match v with VTuple [VInt (-1); VInt k] => VInt (2000 + k) | _ => v end in
+  forallb tclean1 b = true /\
+  snd (take_first (init (inline b)) 3) =
+    LOk [TVal (VTuple [VInt (-1); VInt 1]); TVal (VTuple [VInt (-1); VInt 2]); TVal (VTuple [VInt (-1); VInt 3])] /\
+  snd (list_of_generator (init (inline (map (tmap f) b)))) =
+    LOk [TVal (VInt 2001); TVal (VInt 2002); TVal (VInt 2003); TVal (VInt 2004)].
+Proof. exact example_payloads_ok. Qed.
+
 (* hypotheses are satisfiable, and the theorems compute *)
 Example C17_example :
   let b := example_body in
